@@ -14,11 +14,13 @@ use crate::wal::{WalError, WalIoOperation, WalReplayIoStep};
 pub(crate) struct SegmentWriter {
     writer: BufWriter<File>,
     segment_id: u64,
+    // set when a failed append could not be rolled back; the segment then refuses further appends
+    failed: bool,
 }
 
 impl SegmentWriter {
     pub(crate) fn new(segment_id: u64, file: File) -> Self {
-        Self { writer: BufWriter::new(file), segment_id }
+        Self { writer: BufWriter::new(file), segment_id, failed: false }
     }
 
     pub(crate) fn segment_id(&self) -> u64 {
@@ -26,7 +28,51 @@ impl SegmentWriter {
     }
 
     // writes a single, complete entry and syncs it to disk.
+    //
+    // If the append fails, the caller reports the operation as failed and does not apply it in
+    // memory. Nothing of the record may then stay behind: bytes that already reached the file (a
+    // failed sync leaves the complete record there) would be replayed on the next open and
+    // resurrect the failed operation, possibly referencing a blob that was reclaimed meanwhile.
+    // So a failed append is rolled back by cutting the file back to where the entry started.
     pub(crate) fn write_entry(
+        &mut self,
+        op_version: NonZeroU64,
+        op_hash: BlobHash,
+        op_data: &[u8],
+    ) -> Result<(), WalError> {
+        if self.failed {
+            return Err(WalError::WriteWalEntryDataIO {
+                op_version,
+                segment_id: self.segment_id,
+                source: std::io::Error::other("an earlier failed append could not be rolled back"),
+            });
+        }
+        // nothing is buffered between entries, so the entry starts at the current end of file
+        let start_len = self
+            .writer
+            .get_ref()
+            .metadata()
+            .map_err(|io_err| WalError::WriteWalEntryDataIO {
+                op_version,
+                segment_id: self.segment_id,
+                source: io_err,
+            })?
+            .len();
+
+        let result = self.write_entry_inner(op_version, op_hash, op_data);
+        if result.is_err()
+            && let Err(e) = self.writer.get_ref().set_len(start_len)
+        {
+            tracing::error!(
+                segment = self.segment_id,
+                "Failed to roll back a failed WAL append: {e}. Refusing further appends."
+            );
+            self.failed = true;
+        }
+        result
+    }
+
+    fn write_entry_inner(
         &mut self,
         op_version: NonZeroU64,
         op_hash: BlobHash,
@@ -45,7 +91,9 @@ impl SegmentWriter {
         entry.extend_from_slice(&op_data_len.to_le_bytes());
         entry.extend_from_slice(op_data);
 
-        self.writer.write_all(&entry).map_err(|io_err| WalError::WriteWalEntryDataIO {
+        // The buffer is empty here; write straight to the file so that nothing of a failed entry
+        // can stay behind in the buffer and be flushed by a later append.
+        self.writer.get_mut().write_all(&entry).map_err(|io_err| WalError::WriteWalEntryDataIO {
             op_version,
             segment_id: self.segment_id,
             source: io_err,
